@@ -52,7 +52,7 @@ fn fti_any_per(w: &World) -> u64 {
 }
 
 const SUBST_BATCH: u64 = 1;
-const MISC_EDITS: u64 = 160;
+const MISC_EDITS: u64 = 166;
 
 fn obj_fec(c: &CorpusEntry) -> u8 {
     c.em.stream.iter().find(|p| p.toi() != 0).map(|p| p.dec.lct.cp).unwrap_or(0)
@@ -438,6 +438,34 @@ fn gen_seq(w: &World, class: &str, k: u64) -> Option<(Value, u64, Vec<Vec<u8>>)>
                     rf.set_ext(wire::HET_FTI, Some(wire::ext_fti(f)));
                     seq[fdt_i] = rf.encode();
                     what = format!("FDT FTI {:?}", f);
+                }
+                160..=165 => {
+                    // codepoint of another scheme AND a packet cut inside / just after the FEC payload id: the length
+                    // test of the parser follows the codepoint, the object follows its own OTI (payload ids of 4 and 8 bytes)
+                    let cp = [0u8, 1, 2, 5, 6, 129][(e - 160) as usize];
+                    let cut = |b: &Vec<u8>| -> Vec<Vec<u8>> {
+                        let hdr = (b[2] as usize * 4).min(b.len());
+                        (0..=12usize).map(|extra| {
+                            let mut x = b[..(hdr + extra).min(b.len())].to_vec();
+                            x[3] = cp;
+                            x
+                        }).collect()
+                    };
+                    let obj_cuts = cut(&seq[fi]);
+                    let fdt_cuts = cut(&seq[fdt_i]);
+                    // after the first packet of the object (OTI known in-band or from the FDT) ...
+                    for (n, x) in obj_cuts.iter().enumerate() {
+                        seq.insert(fi + 1 + n, x.clone());
+                    }
+                    // ... and before it (OTI known from the FDT only, when the FDT comes first)
+                    for (n, x) in obj_cuts.iter().enumerate() {
+                        seq.insert(fi + n, x.clone());
+                    }
+                    // the same on the FDT instance, in the middle of its packets
+                    for (n, x) in fdt_cuts.iter().enumerate() {
+                        seq.insert(fdt_i + 1 + n, x.clone());
+                    }
+                    what = format!("codepoint={} on copies cut 0..12 bytes after the LCT header", cp);
                 }
                 _ => {
                     // TOI / TSI width classes and huge values
